@@ -34,6 +34,9 @@ pub struct Case {
     pub declared: u64,
     /// largest declared size (≤ limit) of any element in the input that may legitimately be read
     pub legit: u64,
+    /// a long stream of in-limit elements (no hostile header): memory must stay bounded by the
+    /// largest of them however many there are
+    pub long_stream: bool,
 }
 
 fn limit_of(cfg: &IterCfg) -> Option<u64> {
@@ -79,6 +82,34 @@ impl Check for C17 {
                 (MaxSz::Limit(v), v as u64)
             }
         };
+        if rng.chance(1, 60) {
+            // long stream of in-limit Void elements of varying sizes, at root level or inside an unknown-size root
+            let n = rng.range(50, 600);
+            let max_sz = *rng.pick(&[200usize, 1000, 4000]);
+            let mut bytes: Vec<u8> = Vec::new();
+            if rng.chance(1, 2) {
+                if let Some(root) = spec.elems.iter().find(|e| e.ty == Ty::Master && e.path.is_empty() && spec.allowed(crate::spec::VOID_ID, &[e.id])) {
+                    bytes.extend_from_slice(&enc::id_bytes(root.id));
+                    bytes.extend_from_slice(&enc::unknown_size(8));
+                }
+            }
+            let mut legit = 0u64;
+            for _ in 0..n {
+                let sz = rng.range(0, max_sz);
+                legit = legit.max(sz as u64);
+                bytes.extend_from_slice(&enc::id_bytes(crate::spec::VOID_ID));
+                bytes.extend_from_slice(&enc::size_vint(sz as u64, rng.range(enc::min_size_width(sz as u64), 4)));
+                bytes.extend(std::iter::repeat(0u8).take(sz));
+            }
+            let lim = (legit as usize).max(m.min(65536) as usize);
+            let mut cfg = IterCfg { max_size: MaxSz::Limit(lim), ..Default::default() };
+            cfg.allow = cases::gen_allow(&mut rng, 40);
+            cfg.capacity = Some(*rng.pick(&[0usize, 16, 64, 300, 1024, 4096]));
+            let mut script = io::gen_rscript(&mut rng, 4096, &[]);
+            script.rest = *rng.pick(&[0usize, 0, 777, 4096]);
+            let rc = ReadCase { spec, input: Arc::new(bytes), cfg, script, driver: Driver::UntilEnd { extra: 0 }, class: "long-stream" };
+            return Case { rc, virtual_tail: 0, target_off: 0, target_id: crate::spec::VOID_ID, declared: 0, legit, long_stream: true };
+        }
         // a reachable chain of masters leading to the target element
         let mut chain: Vec<(u64, bool)> = Vec::new();
         let depth = rng.range(0, 3);
@@ -190,7 +221,7 @@ impl Check for C17 {
         // legitimate multi-megabyte payload does not take millions of calls
         script.rest = 0;
         let rc = ReadCase { spec, input: Arc::new(bytes), cfg, script, driver: Driver::UntilEnd { extra: 0 }, class: "hostile-size" };
-        Case { rc, virtual_tail, target_off, target_id: tid, declared, legit }
+        Case { rc, virtual_tail, target_off, target_id: tid, declared, legit, long_stream: false }
     }
 
     fn exec(&self, c: &Case, st: &mut Stats) -> Result<ExecOk, Fail> {
@@ -244,8 +275,15 @@ impl Check for C17 {
         if usage.peak as u64 > allowed {
             fail!("heap-growth", "peak heap growth {} bytes (largest single request {}) exceeds 8*max(largest in-limit element {}, capacity {}, 16)+4096 = {}; {}", usage.peak, usage.max_request, legit, cap, allowed, ctx());
         }
+        if c.long_stream {
+            st.inc("long_stream_runs");
+            st.add("long_stream_elements", tr.evs.iter().filter(|e| matches!(e, Ev::Tag(..))).count() as u64);
+            if tr.first_error().is_some() {
+                fail!("long-stream-error", "a stream of in-limit elements was not read through: {}", ctx());
+            }
+        }
         let pulled_bound = c.target_off as u64 + 16 + allowed;
-        if tr.bytes_delivered > pulled_bound {
+        if !c.long_stream && tr.bytes_delivered > pulled_bound {
             fail!("bytes-pulled", "{} bytes were pulled from the source, more than offset+16+{} = {}; {}", tr.bytes_delivered, allowed, pulled_bound, ctx());
         }
         if c.declared > m {
@@ -266,7 +304,7 @@ impl Check for C17 {
         } else if c.declared > 0 && tr.first_error().map(|e| matches!(e, ErrV::Eof { .. })).unwrap_or(false) {
             st.inc("probe_in_limit_payload_missing");
         }
-        Ok(ExecOk { nontrivial: c.declared > 0 })
+        Ok(ExecOk { nontrivial: c.declared > 0 || c.long_stream })
     }
 
     fn fingerprint(&self, c: &Case) -> u64 {
@@ -280,6 +318,7 @@ impl Check for C17 {
         j["target_id"] = json!(format!("{:x}", c.target_id));
         j["declared"] = json!(c.declared);
         j["legit"] = json!(c.legit);
+        j["long_stream"] = json!(c.long_stream);
         j
     }
 
@@ -291,6 +330,7 @@ impl Check for C17 {
             target_id: u64::from_str_radix(j.get("target_id").and_then(|v| v.as_str()).ok_or("target_id")?, 16).map_err(|e| e.to_string())?,
             declared: j.get("declared").and_then(|v| v.as_u64()).ok_or("declared")?,
             legit: j.get("legit").and_then(|v| v.as_u64()).ok_or("legit")?,
+            long_stream: j.get("long_stream").and_then(|v| v.as_bool()).unwrap_or(false),
         })
     }
 
@@ -305,7 +345,7 @@ impl Check for C17 {
     }
 
     fn rule(&self) -> &'static str {
-        "One case = specification + a reachable chain of 0-3 masters (known-size with accurate or hostile sizes, unknown-size, mixed) followed by one element (binary, string, numeric, master, or an id outside the specification) whose declared size is drawn from 0, M-1, M, M+1, 2M, powers of two up to 2^56-2, in any size-field width that holds it; payload really present, short or absent, the remainder existing only virtually in a lazy source; limit M from 0 to 1 MiB and the default 4e9; any tolerance subset; drawn capacity and delivery schedule. Measured by a counting global allocator armed around the iteration. Checked: peak heap growth and bytes pulled <= 8*max(largest in-limit declared size, capacity, 16)+4 KiB (+offset); an element above the limit is never emitted and the parse errors (InvalidTagSize at its offset unless an earlier check fires); no panic. Non-trivial: declared size > 0. Distinct: FNV-1a fingerprint."
+        "One case = specification + a reachable chain of 0-3 masters (known-size with accurate or hostile sizes, unknown-size, mixed) followed by one element (binary, string, numeric, master, or an id outside the specification) whose declared size is drawn from 0, M-1, M, M+1, 2M, powers of two up to 2^56-2, in any size-field width that holds it; payload really present, short or absent, the remainder existing only virtually in a lazy source; limit M from 0 to 1 MiB and the default 4e9; any tolerance subset; drawn capacity and delivery schedule; and, for 1 run in 60, a long stream of 50-600 in-limit Void elements of varying sizes (memory must be bounded by the largest of them, however many there are). Measured by a counting global allocator armed around the iteration. Checked: peak heap growth and bytes pulled <= 8*max(largest in-limit declared size, capacity, 16)+4 KiB (+offset); an element above the limit is never emitted and the parse errors (InvalidTagSize at its offset unless an earlier check fires); no panic. Non-trivial: declared size > 0. Distinct: FNV-1a fingerprint."
     }
     fn assumptions(&self) -> Vec<&'static str> {
         vec![
@@ -315,6 +355,6 @@ impl Check for C17 {
         ]
     }
     fn expected_probes(&self) -> Vec<&'static str> {
-        vec!["declared_above_limit", "declared_within_limit", "declared_bits_49_56", "declared_bits_33_48", "default_limit_runs", "lazy_tail_runs", "probe_invalid_tag_size_reported", "probe_rejected_by_earlier_check", "probe_in_limit_payload_missing"]
+        vec!["declared_above_limit", "declared_within_limit", "declared_bits_49_56", "declared_bits_33_48", "default_limit_runs", "lazy_tail_runs", "probe_invalid_tag_size_reported", "probe_rejected_by_earlier_check", "probe_in_limit_payload_missing", "long_stream_runs"]
     }
 }
